@@ -5,6 +5,7 @@ import (
 	"math"
 	"reflect"
 	"strconv"
+	"strings"
 
 	"gorgonia.org/tensor"
 )
@@ -128,6 +129,14 @@ func (d *dtInfo) genVal(vset, buf, i int) interface{} {
 
 // litVal is the value of the literal token "w<k>" (written by setat/memset/scalar operands).
 func (d *dtInfo) litVal(tok string) (interface{}, error) {
+	if i := strings.IndexByte(tok, ':'); i >= 0 {
+		// "w3:i16": the literal carries its own element type
+		d2 := dtByName(tok[i+1:])
+		if d2 == nil {
+			return nil, fmt.Errorf("bad literal type in %q", tok)
+		}
+		return d2.litVal(tok[:i])
+	}
 	if len(tok) < 2 {
 		return nil, fmt.Errorf("bad literal %q", tok)
 	}
